@@ -77,6 +77,14 @@ type Case struct {
 	// HashTag: replaceHashTag on — the target key is the snapshot key without its
 	// first "{" and first "}"; Pre keys are TARGET keys
 	HashTag bool `json:"hashtag,omitempty"`
+	// Gate > 0 (mode send): the source delivers the first Gate bytes of the
+	// snapshot, everything goes quiescent (the workers replay what was parsed),
+	// then the rest arrives — a slow source, deterministically
+	Gate int `json:"gate,omitempty"`
+	// Interleave (mode plain): the parser and the replayer alternate — entry n+1
+	// is parsed only after entry n was replayed (a legal schedule of the two
+	// goroutines of sendRdb; the default harness order parses everything first)
+	Interleave bool `json:"interleave,omitempty"`
 }
 
 // TKey: the key a snapshot key is replayed to.
@@ -276,6 +284,8 @@ type Run struct {
 	Before  map[DK]*vfdoubles.Val
 	After   map[DK]*vfdoubles.Val
 	LoadErr error
+	// BinKeyChanged: interleaved mode, a later bin arrived with another key than the first one
+	BinKeyChanged string
 }
 
 // Prepare builds the snapshot, runs the REAL loader and flattens the entries.
